@@ -30,7 +30,7 @@ var rawVariants = []string{"control", "victim-key-own-sig", "challenge-halves-sw
 // every byte: its ephemeral key, the message it signs, the frame header. A
 // control session (real key, correct signature) runs first; if the verifier
 // refuses the control, the hand-written speaker no longer matches the protocol
-// and the run is harness trouble, not a verdict.
+// and its negative variants are skipped (counted by a probe).
 func (a *authState) handwrittenSession() {
 	r := a.r
 	if r.mode != wireTypeCompress {
@@ -38,9 +38,12 @@ func (a *authState) handwrittenSession() {
 		return
 	}
 	if ok := a.rawSession(0); !ok {
-		if !r.stop {
-			r.c.HarnessTrouble("hand-written protocol speaker: the control session (real key, correct signature) was refused; rawpeer.go no longer matches secret_connection.go")
-		}
+		// the hand-written speaker no longer matches what MakeSecretConnection
+		// accepts (the protocol under test changed): its negative sessions would
+		// prove nothing, so they are skipped - visibly (this probe is 0 on the
+		// unchanged tree) - and the other scenarios, which use the real code on
+		// both ends, judge the change
+		r.c.Probe("handwritten_control_refused_variants_skipped")
 		return
 	}
 	if r.stop {
